@@ -7,7 +7,13 @@ import (
 	"crypto/ecdsa"
 	"fmt"
 	"math/big"
+	"reflect"
+	"sync"
 	"time"
+
+	"github.com/VictoriaMetrics/fastcache"
+	ethereum "github.com/ethereum/go-ethereum"
+	"github.com/ethereum/go-ethereum/core/types"
 
 	"github.com/ethereum/go-ethereum/accounts/abi/bind"
 	"github.com/ethereum/go-ethereum/accounts/abi/bind/backends"
@@ -39,6 +45,26 @@ type ChainWorld struct {
 	Payment  *payment.PaymentService
 	min, fee *big.Int
 	nonce    int64
+	subs     *subTracker
+}
+
+// subTracker is the chain connection handed to ContractPayment: the simulated backend, remembering
+// the log subscriptions made through it so that Close can end them (the pool subscribes with
+// context.Background(), like runPool; a world that is thrown away must not keep its event loop).
+type subTracker struct {
+	*backends.SimulatedBackend
+	mu   sync.Mutex
+	subs []ethereum.Subscription
+}
+
+func (t *subTracker) SubscribeFilterLogs(ctx context.Context, q ethereum.FilterQuery, ch chan<- types.Log) (ethereum.Subscription, error) {
+	sub, err := t.SimulatedBackend.SubscribeFilterLogs(ctx, q, ch)
+	if err == nil {
+		t.mu.Lock()
+		t.subs = append(t.subs, sub)
+		t.mu.Unlock()
+	}
+	return sub, err
 }
 
 // NewChainWorld deploys the contract (operator = identity 6) and starts the payment side.
@@ -66,7 +92,10 @@ func NewChainWorld(ledger store.Store, min, fee *big.Int, funded ...*Ident) (*Ch
 // Restart builds a fresh ContractPayment and PaymentService over the same chain and ledger (what a
 // pool restart does: nothing is cached).
 func (w *ChainWorld) Restart() error {
-	cp, err := payment.ContractPayment(w.Ledger, w.Address, w.Backend, bind.NewKeyedTransactor(w.Operator))
+	if w.subs == nil {
+		w.subs = &subTracker{SimulatedBackend: w.Backend}
+	}
+	cp, err := payment.ContractPayment(w.Ledger, w.Address, w.subs, bind.NewKeyedTransactor(w.Operator))
 	if err != nil {
 		return err
 	}
@@ -77,6 +106,23 @@ func (w *ChainWorld) Restart() error {
 		w.Payment.WithdrawFee = func(a *big.Int) *big.Int { return new(big.Int).Sub(a, fee) }
 	}
 	return nil
+}
+
+// Close stops the simulated chain (ends the Balance-event subscriptions, frees the chain's database).
+func (w *ChainWorld) Close() {
+	if w == nil || w.Backend == nil {
+		return
+	}
+	if w.subs != nil {
+		w.subs.mu.Lock()
+		for _, sub := range w.subs.subs {
+			sub.Unsubscribe()
+		}
+		w.subs.subs = nil
+		w.subs.mu.Unlock()
+	}
+	w.Backend.Close()
+	releaseChainCaches(w.Backend)
 }
 
 // Deposit sends addBalance from the wallet.
@@ -152,4 +198,52 @@ func (w *ChainWorld) AwaitCache(id *Ident) error {
 		}
 		time.Sleep(200 * time.Microsecond)
 	}
+}
+
+var fastcacheType = reflect.TypeOf((*fastcache.Cache)(nil))
+
+// releaseChainCaches gives the off-heap chunks of the stopped chain's trie and snapshot caches back
+// (fastcache only recycles them on Reset; without this every discarded world keeps ~150 kB that the
+// garbage collector cannot see, which is gigabytes over a deep search).
+func releaseChainCaches(b *backends.SimulatedBackend) {
+	defer func() { recover() }() // best effort: a differently shaped go-ethereum just keeps its caches
+	bc := b.Blockchain()
+	seen := map[uintptr]bool{}
+	var walk func(v reflect.Value, depth int)
+	walk = func(v reflect.Value, depth int) {
+		if depth > 12 || !v.IsValid() {
+			return
+		}
+		switch v.Kind() {
+		case reflect.Ptr:
+			if v.IsNil() || seen[v.Pointer()] {
+				return
+			}
+			seen[v.Pointer()] = true
+			if v.Type() == fastcacheType {
+				accessibleCopy(v).Interface().(*fastcache.Cache).Reset()
+				return
+			}
+			walk(v.Elem(), depth+1)
+		case reflect.Interface:
+			if !v.IsNil() {
+				walk(v.Elem(), depth+1)
+			}
+		case reflect.Struct:
+			for i := 0; i < v.NumField(); i++ {
+				switch v.Field(i).Kind() {
+				case reflect.Ptr, reflect.Interface, reflect.Struct, reflect.Map:
+					walk(v.Field(i), depth+1)
+				}
+			}
+		case reflect.Map:
+			if v.Len() > 64 {
+				return
+			}
+			for _, k := range v.MapKeys() {
+				walk(v.MapIndex(k), depth+1)
+			}
+		}
+	}
+	walk(reflect.ValueOf(bc), 0)
 }
